@@ -430,6 +430,82 @@ fn pipelines(rep: &Reporter, n: usize) {
     });
 }
 
+/// A user-written mutation driven through the public `mutation::mutation` driver that changes every solution it is
+/// handed and fails on the k-th one: whatever the driver leaves behind after the error, no individual may carry
+/// an objective value that belongs to its solution before the change.
+#[derive(Clone, serde::Serialize)]
+struct FailAt {
+    k: usize,
+    #[serde(skip)]
+    seen: std::sync::Arc<std::sync::atomic::AtomicUsize>,
+}
+impl mahf::components::mutation::Mutation<Real> for FailAt {
+    fn mutate(&self, solution: &mut Vec<f64>, _problem: &Real, _state: &mut mahf::State<Real>) -> mahf::ExecResult<()> {
+        let i = self.seen.fetch_add(1, std::sync::atomic::Ordering::SeqCst);
+        solution[0] += 0.5;
+        if i == self.k {
+            Err(eyre::eyre!("injected failure on individual {i}"))
+        } else {
+            Ok(())
+        }
+    }
+}
+
+fn failing_operator(rep: &Reporter, n: usize) {
+    use mahf::{components::evaluation::BestIndividualUpdate, state::common::Populations, Component};
+    let mut rng = SplitMix64::new(rep.seed).fork(0xC05_9);
+    for case in 0..n {
+        let dim = 1 + rng.usize(3);
+        let problem = Real::new(dim, -4.0, 4.0, RealFn::Sphere);
+        let mk_pop = |rng: &mut SplitMix64, n: usize| -> Vec<Individual<Real>> {
+            (0..n)
+                .map(|_| {
+                    let s: Vec<f64> = (0..dim).map(|_| rng.f64_in(-4.0, 4.0)).collect();
+                    let v = problem.pure(&s);
+                    Individual::new(s, v.try_into().unwrap())
+                })
+                .collect()
+        };
+        let size = 1 + rng.usize(6);
+        let k = rng.usize(size + 2); // k >= size: no failure
+        let mut st = mahf::State::<Real>::new();
+        let mut pops = Populations::<Real>::new();
+        pops.push(mk_pop(&mut rng, 2));
+        pops.push(mk_pop(&mut rng, size));
+        st.insert(pops);
+        st.insert(mahf::state::Random::new(case as u64));
+        let best = BestIndividualUpdate::new::<Real>();
+        let _ = best.init(&problem, &mut st);
+        let _ = best.execute(&problem, &mut st);
+        let op = FailAt { k, seen: Default::default() };
+        let r = mv::catch(|| mahf::components::mutation::mutation(&op, &problem, &mut st).map_err(|e| e.to_string()));
+        rep.case();
+        rep.nontrivial(hash_of(&("failing-operator", size, k)));
+        rep.count(if k < size { "driver_runs_with_a_failing_operator" } else { "driver_runs_without_failure" }, 1);
+        let audit = |st: &mahf::State<Real>, when: &str| {
+            let mut stale = Vec::new();
+            for_each_individual(st, |loc, _depth, ind| {
+                if let Some(o) = ind.get_objective() {
+                    let want = problem.pure(ind.solution());
+                    if o.value().to_bits() != want.to_bits() {
+                        stale.push(format!("{loc}: reports {} but f(solution) = {want}", o.value()));
+                    }
+                }
+            });
+            if let Some(m) = stale.first() {
+                rep.violation(&format!("stale:{when}"), json!({"population_size": size, "operator_fails_on_individual": k, "driver_result": format!("{r:?}"), "observed": m}));
+            }
+        };
+        audit(&st, if k < size { "after-a-failed-mutation-through-the-public-driver" } else { "after-a-mutation-through-the-public-driver" });
+        // the state is used again: the best-so-far update must not pick up a stale value either
+        let top_evaluated = st.populations().get_current().map(|c| !c.is_empty() && c.iter().all(|i| i.is_evaluated())).unwrap_or(false);
+        if top_evaluated {
+            let _ = mv::catch(|| best.execute(&problem, &mut st).map_err(|e| e.to_string()));
+            audit(&st, "best-so-far-after-a-failed-mutation");
+        }
+    }
+}
+
 fn main() {
     let rep = Reporter::from_args("C05");
     rep.rule("(a) every history up to the stated length over 21 individual-level operations on a pair of individuals (evaluate_with two different functions, set_objective, solution_mut with/without write, clone, clone_from, Vec::clone_from, constructors, as_solutions_mut, into_solutions/into_individuals) compared with a (solution, cached objective) model after every step; (b) after EVERY child of every block (step-observer hook) of runs of all 21 templates over the parameter catalogue and of seeded random operator pipelines (selection x 1-3 variation/boundary/swarm operators x archive x replacement, three encodings), and of the swarm operators that move or re-seed particles (firefly update, black-hole update + event horizon, PSO loop) started from prepared hostile populations (coordinates exactly 0.0/-0.0, subnormal and tiny values, domain bounds, duplicates, randomisation switched off or nearly off): every individual in the population stack and in every memory state (best-so-far, elitist archive, PSO bests, CRO molecule bests, every scope) that reports an objective must carry exactly f_pure(solution), bit for bit. distinct_nontrivial = distinct audited runs + a 1/97 sample of the exhaustive histories; (c) second runs on the state a first run left behind, on a changed problem instance (Configuration::run with a warm-start configuration: evaluate, best-so-far update, generic ga / es / ls / de loop), audited against the second objective function after every component");
@@ -457,6 +533,7 @@ fn main() {
     rep.count("template_runs", n as u64);
     pipelines(&rep, rep.tier.pick(10_000, 1_000_000));
     hostile_swarm_states(&rep, rep.tier.pick(4_000, 600_000));
+    failing_operator(&rep, rep.tier.pick(2_000, 200_000));
     // a second run on the state of a first one, on a changed problem instance: whatever the second run
     // re-creates (best-so-far, populations it re-evaluates) carries values of the second objective only
     {
